@@ -3,4 +3,7 @@ package rules
 // All maps property ids to their rule sets.
 var All = map[string]func(*Ctx){
 	"C01": C01,
+	"C02": C02,
+	"C03": C03,
+	"C04": C04,
 }
